@@ -110,7 +110,11 @@ func (p *goasm) function(f *ir.Function) {
 			p.flush()
 			p.ensureclear()
 			for _, line := range n.Lines {
-				p.Printf("\t// %s\n", line)
+				// A line break inside a comment string would otherwise turn the
+				// remainder into code.
+				for _, l := range strings.Split(line, "\n") {
+					p.Printf("\t// %s\n", l)
+				}
 			}
 		default:
 			panic("unexpected node type")
